@@ -180,7 +180,16 @@ KW = {'ue': lambda n: {'ue': n}, 'se': lambda n: {'se': -n}, 'uie': lambda n: {'
       'uint8': lambda n: {'uint': n, 'length': 8}, 'int12': lambda n: {'int': -n, 'length': 12}, 'hex': lambda n: {'hex': format(n, '04x')},
       'bin': lambda n: {'bin': format(n, '06b')}, 'float32': lambda n: {'float': n + 0.5, 'length': 32}, 'bool': lambda n: {'bool': True},
       'bytes': lambda n: {'bytes': bytes([n, n])}, 'uintle16': lambda n: {'uintle': n, 'length': 16}, 'bfloat': lambda n: {'bfloat': float(n)},
-      'e4m3mxfp': lambda n: {'e4m3mxfp': float(n)}, 'zeros': lambda n: {'length': n}}
+      'e4m3mxfp': lambda n: {'e4m3mxfp': float(n)}, 'zeros': lambda n: {'length': n},
+      # special values, for which an encoder is most likely to keep a ready-made result: zero, saturation, infinities, NaN
+      'ue=0': lambda n: {'ue': 0}, 'se=0': lambda n: {'se': 0}, 'uie=0': lambda n: {'uie': 0}, 'sie=0': lambda n: {'sie': 0},
+      'mxint-sat': lambda n: {'mxint': 100.0}, 'mxint-sat-neg': lambda n: {'mxint': -100.0}, 'mxint-inf': lambda n: {'mxint': float('inf')},
+      'e4m3mxfp-sat': lambda n: {'e4m3mxfp': 1e9}, 'e5m2mxfp-inf': lambda n: {'e5m2mxfp': float('inf')}, 'e2m1mxfp-sat': lambda n: {'e2m1mxfp': -1e9},
+      'float32-inf': lambda n: {'float': float('inf'), 'length': 32}, 'float16-nan': lambda n: {'float': float('nan'), 'length': 16},
+      'float64-zero': lambda n: {'float': 0.0, 'length': 64}, 'bfloat-inf': lambda n: {'bfloat': float('-inf')}, 'bfloat-big': lambda n: {'bfloat': 1e39},
+      'p4binary-nan': lambda n: {'p4binary': float('nan')}, 'p3binary-sat': lambda n: {'p3binary': 1e9}, 'e8m0mxfp-one': lambda n: {'e8m0mxfp': 1.0},
+      'uint8-zero': lambda n: {'uint': 0, 'length': 8}, 'int8-minus1': lambda n: {'int': -1, 'length': 8}, 'bool-false': lambda n: {'bool': False},
+      'hex-empty': lambda n: {'hex': ''}, 'bin-empty': lambda n: {'bin': ''}, 'bytes-empty': lambda n: {'bytes': b''}, 'bits-empty': lambda n: {'bits': Bits()}}
 for _k, _f in KW.items():
     ROUTES['kw:' + _k] = (lambda f: (lambda s, tc, tok: tc(**f(_value(s)))))(_f)
 SETTERS = {'ue': lambda n: n, 'se': lambda n: -n, 'uie': lambda n: n, 'sie': lambda n: -n, 'uint8': lambda n: n, 'hex': lambda n: format(n, '04x'),
@@ -193,7 +202,12 @@ SETTERS_SIZED = {'bool': (1, lambda n: n % 2 == 1), 'int12': (0, lambda n: -n), 
                  'bfloat': (0, lambda n: float(n)), 'bfloatle': (0, lambda n: float(n)), 'e4m3mxfp': (0, lambda n: float(n)), 'e5m2mxfp': (0, lambda n: float(n)),
                  'p3binary': (0, lambda n: float(n)), 'p4binary': (0, lambda n: float(n)), 'mxint': (0, lambda n: n / 64), 'e2m1mxfp': (0, lambda n: float(n % 4)),
                  'e3m2mxfp': (0, lambda n: float(n)), 'e8m0mxfp': (0, lambda n: 2.0 ** (n - 8)), 'float16': (0, lambda n: n + 0.5), 'oct': (0, lambda n: format(n, '03o')),
-                 'u7': (0, lambda n: n), 'i5': (0, lambda n: -n), 'bits': (0, lambda n: Bits(uint=n, length=5))}
+                 'u7': (0, lambda n: n), 'i5': (0, lambda n: -n), 'bits': (0, lambda n: Bits(uint=n, length=5)),
+                 # ... and the special values again, through the property setter (which hands the encoder's result to an existing object)
+                 'ue=0': (0, lambda n: 0), 'se=0': (0, lambda n: 0), 'uie=0': (0, lambda n: 0), 'sie=0': (0, lambda n: 0), 'mxint=sat': (0, lambda n: 100.0),
+                 'mxint=sat-neg': (0, lambda n: -100.0), 'e4m3mxfp=sat': (0, lambda n: 1e9), 'e5m2mxfp=inf': (0, lambda n: float('inf')), 'float32=inf': (0, lambda n: float('inf')),
+                 'float16=nan': (0, lambda n: float('nan')), 'bfloat=big': (0, lambda n: 1e39), 'p4binary=nan': (0, lambda n: float('nan')), 'uint8=0': (0, lambda n: 0),
+                 'hex=same': (0, lambda n: 'a5c3'), 'bin=same': (0, lambda n: '0110'), 'oct=same': (0, lambda n: '17'), 'bytes=same': (0, lambda n: b'ab'), 'bool=true': (1, lambda n: True)}
 
 
 def _setter(name, f, length=0):
@@ -207,7 +221,7 @@ def _setter(name, f, length=0):
 for _k, _f in SETTERS.items():
     ROUTES['setter:' + _k] = _setter(_k, _f)
 for _k, (_l, _f) in SETTERS_SIZED.items():
-    ROUTES['setter:' + _k] = _setter(_k, _f, _l)
+    ROUTES['setter:' + _k] = _setter(_k.split('=')[0], _f, _l)
 MUTABLE_TARGET_ONLY = {r for r in ROUTES if r.startswith('into:') or r.startswith('setter:')}
 NEEDS_LEN = {'invert', 'lshift0', 'rshift0', 'rshift1', 'cut-whole', 'and-ones', 'xor-zeros', 'into:overwrite', 'into:ior-zeros', 'into:ixor-zeros'}
 EXT_ROUTES = {            # external buffer kind -> {route: f(ext, tc)}
@@ -412,7 +426,7 @@ def episode(ctx, case, nsteps=0):
                     continue
                 if route in MUTABLE_TARGET_ONLY and tcn not in util.MUTABLE:
                     continue
-                if case.get('lsb0') and route.rpartition(':')[2] in ('ue', 'se', 'uie', 'sie'):
+                if case.get('lsb0') and route.rpartition(':')[2].split('=')[0] in ('ue', 'se', 'uie', 'sie'):
                     continue            # documented: exponential-Golomb codes are not available in lsb0 mode
                 if route == 'prop-bits':
                     def f():
